@@ -1,6 +1,6 @@
 CONFIG = {
     "lean_props": "J5V/Props/C15.lean",
-    "extract": [],
+    "extract": ["schema"],
     "streams": [{
         "name": "schema.loop", "harness": "schemah", "driver": "drv_schema",
         "env": {"SCHEMAH_STREAM": "loop"},
